@@ -183,6 +183,45 @@ def extra_checks(rng, tier, g_, info):
             elif v.startswith(("overwrote", "unexpected-files", "nonzero-status", "file-and-stdout", "existing-sibling")):
                 yield line, "--file target of class %s: CLI broke the output contract: %s" % (fsk, v[:120])
     info["odd_file_targets"] = m
+    # environment variants of the REAL program (subprocess): stdio encoding, locale, hash seed, optimisation — with
+    # ASCII and non-ASCII secrets.  Exit status 0 => stdout is the API result; otherwise stdout carries no wallet data.
+    envs = [{"PYTHONIOENCODING": "ascii"}, {"PYTHONIOENCODING": "latin-1"}, {"LC_ALL": "C", "LANG": "C", "PYTHONUTF8": "0"},
+            {"PYTHONHASHSEED": "0"}, {"PYTHONHASHSEED": "4242"}, {"PYTHONOPTIMIZE": "1"}, {"PYTHONIOENCODING": "utf-16"}]
+    if tier == "quick":
+        envs = envs[:3] + [rng.choice(envs[3:])]
+    mn_ = "legal winner thank year wave sausage worth useful legal winner thank yellow"
+    vecs = [["--interval", "0", "1", "from-mnemonic", mn_, "--password", "p\u00e4ssw\u00f6rd"],
+            ["--testnet", "--interval", "3", "4", "from-entropy-hex", "00" * 16, "--password", "\u30d1\u30b9"],
+            ["--paranoia", "--interval", "0", "1", "from-mnemonic", mn_, "--password", "\U0001f511"],
+            ["--interval", "0", "1", "from-mnemonic", mn_, "--password", "plain"]]
+    k = 0
+    for ev in envs:
+        for argv in (vecs if tier == "thorough" else [vecs[0], rng.choice(vecs[1:])]):
+            env = dict(os.environ, PYTHONPATH=impl.REPO)
+            env.update(ev)
+            p = subprocess.run(["/venv/bin/python", "-m", "btc_hd_wallet"] + argv, cwd="/", env=env,
+                               stdout=subprocess.PIPE, stderr=subprocess.PIPE, timeout=600)
+            k += 1
+            enc_ = ev.get("PYTHONIOENCODING", "utf-8")
+            try:
+                text = p.stdout.decode(enc_ if enc_ != "utf-16" else "utf-16", errors="replace")
+            except LookupError:
+                text = p.stdout.decode("utf-8", errors="replace")
+            line = "# environment %s: python -m btc_hd_wallet %s" % (ev, " ".join(argv))
+            if p.returncode != 0:
+                if any(marker in text for marker in ('"MASTER"', '"BIP44"', "legal winner", '"groups"')):
+                    yield line, "the run failed (exit status %d) but wallet data was emitted on standard output" % p.returncode
+                continue
+            g2 = parse_intent(argv)
+            try:
+                rep = json.loads(text)
+                want = api_result(g2, bytes(40))
+            except Exception as e:
+                yield line, "exit status 0 but standard output is not the report (%s)" % type(e).__name__
+                continue
+            if rep != want:
+                yield line, "under this environment the CLI output differs from the API result"
+    info["environment_variant_runs"] = k
 
 
 def nontrivial(line, out):
